@@ -641,6 +641,19 @@ def f_failwrite(fail=0, present=1, src="x", outdir=".", need="DEFAULT", consumer
     return {"plan.py": script(root), "w.py": script(w), "src.txt": src + "\n"}
 
 
+def f_scratch(stage=1):
+    """V declares a volatile scratch file that its command never leaves behind. stage 2: the plan
+    no longer mentions the scratch file. stage 3: another step builds a regular output at the
+    very same path."""
+    kw = {"inp": ["src.txt"], "out": ["o.txt"]}
+    if stage == 1:
+        kw["vol"] = ["scratch.dat"]
+    root = [["static", "src.txt", "v.py"], ["run", "./v.py", kw]]
+    if stage == 3:
+        root.append(tr("B", ["src.txt"], ["scratch.dat"]))
+    return {"plan.py": script(root), "v.py": script([["write", "o.txt", ["src.txt"]]]), "src.txt": "src\n"}
+
+
 def f_latestatic(gap=1, cfg="c"):
     """The top plan consumes cfg.txt (amended), starts a sub-plan and only afterwards declares the
     static file late.txt, which a step of the sub-plan (./work.py) amends. An edit of cfg.txt
@@ -684,6 +697,7 @@ DOMAINS = {
     "f_dynout": {"target": ("dyn1", "dyn2"), "consumer": ("none", "dyn1", "dyn2"), "sub": (0, 1)},
     "f_hold": {"nesting": (2, 1), "v": (1, 2)},
     "f_detfinish": {"broken": (1, 0), "lead": (0, 2)},
+    "f_scratch": {"stage": (1, 2, 3)},
     "f_failwrite": {"fail": (0, 1), "present": (1, 0), "src": ("x", "y"), "outdir": (".", "gen/sub"),
                     "need": ("DEFAULT", "OPTIONAL"), "consumer": (0, 1)},
     "f_planuse": {"use": (1, 0), "chain": (2, 1), "src": ("x", "y"), "psrc": ("c", "d"),
